@@ -23,7 +23,10 @@ theorem fwdLoop1_spec (L : Lawful V) (ns : Needles) (m : Mem) (lo end_ cur : Nat
     simp only [hd, pure_bind', dbgAssert_ok _ hda, bind_ok hsc]
     cases r with
     | some p => exact ⟨some p, c1, rfl, hres.extend hno (Nat.le_refl _) hlc (by omega)⟩
-    | none => exact ih c1 (by omega) (by omega) (hno.union hres (Nat.le_refl _))
+    | none =>
+      have hpa := Mem.padd_ok m "find_raw: cur.add(V::BYTES)" cur V.bytes (by omega) (by omega)
+      simp only [hpa, pure_bind']
+      exact ih c1 (by omega) (by omega) (hno.union hres (Nat.le_refl _))
   | case2 cur h h2 =>
     have hd := Mem.distance_ok m "find_raw: end.distance(cur) (tail)" end_ cur
       (by omega) (by omega) he
@@ -65,6 +68,9 @@ theorem fwdLoopN_spec (L : Lawful V) (ns : Needles) (u : Nat) (hu : 0 < u) (m : 
     cases r with
     | some p => exact ⟨some p, c1, rfl, hres.extend hno (Nat.le_refl _) hlc (by omega)⟩
     | none =>
+      have hpa := Mem.padd_ok m "find_raw: cur.add(Self::LOOP_SIZE)" cur (u * V.bytes)
+        (by omega) (by omega)
+      simp only [hpa, pure_bind']
       exact ih c1 (by omega) (by omega) (by rw [Nat.add_mul_mod_self_right]; exact hal)
         (hno.union hres (Nat.le_refl _))
   | case2 cur h =>
